@@ -54,10 +54,19 @@ bounds_st = st.one_of(
 n_st = st.sampled_from([0, 1, 2, 3, 17, 100, 1000, 5000])
 
 
-def _spectra(spec):
-    from nuspacesim.config import NssConfig
+def _spectra(spec, subclass=False):
+    from nuspacesim.config import NssConfig, Simulation
     from nuspacesim.simulation.spectra.spectra import Spectra
 
+    if subclass:
+        # a user's own subclass of the spectrum model (adds a label, a method): it IS a power-law / mono spectrum
+        base = Simulation.PowerSpectrum if spec["id"] == "powerspectrum" else Simulation.MonoSpectrum
+
+        class LabelledSpectrum(base):
+            def label(self):
+                return "mine"
+
+        return Spectra(NssConfig(simulation={"spectrum": LabelledSpectrum(**{k: v for k, v in spec.items() if k != "id"})}))
     return Spectra(NssConfig(simulation={"spectrum": spec}))
 
 
@@ -76,7 +85,7 @@ def body_power(case):
     p = case["index"]
     lo, hi = case["bounds"]
     n = case["n"]
-    spec = _spectra({"id": "powerspectrum", "index": p, "lower_bound": lo, "upper_bound": hi})
+    spec = _spectra({"id": "powerspectrum", "index": p, "lower_bound": lo, "upper_bound": hi}, subclass=bool(case.get("subclass")))
     u = _u(case, n)
     with scripted(u, raw=True) as rng:
         with cut(f"Spectra(index={p!r}, bounds=[{lo!r},{hi!r}])({n})"):
@@ -238,7 +247,7 @@ def _options_strategy():
 SUBCHECKS = [
     SubCheck(
         "power_law",
-        st.fixed_dictionaries({"index": index_st, "bounds": bounds_st, "n": n_st, "u": st.lists(unit_closed(), min_size=1, max_size=24), "index2": index_st, "lo2": st.floats(6.0, 9.0), "hi2": st.floats(9.0, 12.0), "edit_level": st.sampled_from(EDIT_LEVELS)}),
+        st.fixed_dictionaries({"index": index_st, "bounds": bounds_st, "n": n_st, "u": st.lists(unit_closed(), min_size=1, max_size=24), "index2": index_st, "lo2": st.floats(6.0, 9.0), "hi2": st.floats(9.0, 12.0), "edit_level": st.sampled_from(EDIT_LEVELS), "subclass": st.sampled_from([False, False, True])}),
         body_power,
         lambda labels: bool(labels & {"index_near_1", "u_at_end", "upper==12"}),
         {"quick": 1500, "thorough": 60000},
